@@ -28,6 +28,11 @@ def _eval(e: ast.AST, known: Dict[str, Any]):
         if e.id in known and known[e.id] is not NOT_NONE:
             return known[e.id]
         return _UNK
+    if isinstance(e, ast.Attribute):
+        k = ast.unparse(e)
+        if k in known and known[k] is not NOT_NONE:
+            return known[k]
+        return _UNK
     if isinstance(e, (ast.Tuple, ast.List, ast.Set)):
         vs = [_eval(x, known) for x in e.elts]
         return _UNK if any(v is _UNK for v in vs) else tuple(vs)
@@ -45,9 +50,9 @@ def _eval(e: ast.AST, known: Dict[str, Any]):
         return _UNK if any(v is _UNK for v in vs) else any(vs)
     if isinstance(e, ast.Compare) and len(e.ops) == 1:
         op, l, r = e.ops[0], e.left, e.comparators[0]
-        if isinstance(op, (ast.Is, ast.IsNot)) and isinstance(r, ast.Constant) and r.value is None and isinstance(l, ast.Name) \
-                and l.id in known:
-            isnone = known[l.id] is None
+        if isinstance(op, (ast.Is, ast.IsNot)) and isinstance(r, ast.Constant) and r.value is None and \
+                isinstance(l, (ast.Name, ast.Attribute)) and ast.unparse(l) in known:
+            isnone = known[ast.unparse(l)] is None
             return isnone if isinstance(op, ast.Is) else not isnone
         a, b = _eval(l, known), _eval(r, known)
         if a is _UNK or b is _UNK:
@@ -119,7 +124,7 @@ def reassigned(func_node: ast.AST, names) -> set:
 def specialise(func_node: ast.AST, known: Dict[str, Any], allow_reassigned=()):
     """(specialised copy, number of folded tests). Names re-assigned in the body are refused unless listed in
     `allow_reassigned` (for `x = default if x is None`-style normalisation the caller vouches for)."""
-    bad = reassigned(func_node, set(known)) - set(allow_reassigned)
+    bad = reassigned(func_node, {k for k in known if "." not in k}) - set(allow_reassigned)
     if bad:
         raise ValueError(f"cannot specialise on re-assigned names {sorted(bad)}")
     node = copy.deepcopy(func_node)
